@@ -95,6 +95,8 @@ def oracle(case, obs) -> List[str]:
             if i in in_graph and g[1] >= 0:
                 if g[1] == i:
                     out.append(f"rank {r}: event {i} is its own parent")
+                elif g[1] not in got:
+                    out.append(f"rank {r}: event {i} has parent {g[1]}, which is not an event of the rank")
                 elif got[g[1]][2] + 1 != g[2]:
                     out.append(f"rank {r}: event {i} depth {g[2]} but parent {g[1]} has depth {got[g[1]][2]}")
         # descendants by parent pointers
